@@ -265,6 +265,7 @@ func specText(ds []def) string {
 type input struct {
 	Defs []string
 	Via  string
+	Full []def // the definitions themselves (generated sets are not in the pools)
 }
 
 func checkSet(r *ev.Run, ds []def, family string) {
@@ -304,7 +305,7 @@ func checkSet(r *ev.Run, ds []def, family string) {
 				}()
 			}
 		}
-		in := input{Defs: names, Via: via}
+		in := input{Defs: names, Via: via, Full: ds}
 		dfa, tm, err, pan := callDFA(s)
 		r.Add("sets", 1)
 		r.Add("sets_"+family, 1)
@@ -346,6 +347,9 @@ func main() {
 		var ds []def
 		for _, n := range in.Defs {
 			ds = append(ds, byName[n])
+		}
+		if len(in.Full) > 0 {
+			ds = in.Full
 		}
 		checkSet(r, ds, "replay")
 		r.Finish()
@@ -488,6 +492,33 @@ func main() {
 					ds = append(ds, pool[(i+k*stride)%len(pool)])
 				}
 				bigSets = append(bigSets, ds)
+			}
+		}
+	}
+	// generated wide sets: 0 to 3 literals, an identifier pattern that contains them, and up to 20 patterns that are
+	// pairwise disjoint (`na[0-9]+`, `nb[0-9]+`, ...) - conflict-free as they stand; and the same with the pattern at
+	// index j given the text of the pattern at index i, for every pair i < j (a real conflict at every pair of indices)
+	genLits := []def{{"GIF", `if`, true, false}, {"GSEMI", `;`, true, false}, {"GIN", `in`, true, false}}
+	totals := []int{5, 9, 10, 11, 12, 13, 14, 17}
+	if !r.Quick() {
+		totals = []int{5, 6, 7, 8, 9, 10, 11, 12, 13, 14, 15, 16, 17, 20, 24}
+	}
+	for _, total := range totals {
+		for nl := 0; nl <= 3; nl++ {
+			base := append([]def{}, genLits[:nl]...)
+			base = append(base, def{"GID", `[a-z]+`, false, false})
+			for k := 0; len(base) < total; k++ {
+				base = append(base, def{"N" + string(rune('A'+k)), "n" + string(rune('a'+k)) + "[0-9]+", false, false})
+			}
+			bigSets = append(bigSets, base)
+			if nl == 1 || nl == 3 || (!r.Quick() && total <= 16) {
+				for i := nl; i < total; i++ {
+					for j := i + 1; j < total; j++ {
+						ds := append([]def{}, base...)
+						ds[j].Src = ds[i].Src
+						bigSets = append(bigSets, ds)
+					}
+				}
 			}
 		}
 	}
